@@ -389,6 +389,12 @@ pub fn jf2<A: Stamp, B: Stamp>(a: A, b: B) -> (A, B) {
     joiner_enter(2);
     (a.stamp(), b.stamp())
 }
+/// Fixed-arity function joiner for `lazy_branches(true)`: its arguments are the branch closures (a new closure type in
+/// every step, so the joiner has to stay generic from step to step).
+pub fn jfl2<A: Stamp, B: Stamp, FA: FnOnce() -> A, FB: FnOnce() -> B>(a: FA, b: FB) -> (A, B) {
+    joiner_enter(2);
+    (a().stamp(), b().stamp())
+}
 pub struct JP;
 pub static JPS: JP = JP;
 impl JP {
